@@ -779,30 +779,30 @@ package geom
 //@   ensures loD(b, 3) == old(loD(b, 3)) && hiD(b, 3) == old(hiD(b, 3))
 //@   ensures fresh(b.min) || (base(b.min) == old(base(b.min)) && off(b.min) == old(off(b.min)) && cap(b.min) == old(cap(b.min)))
 //@   ensures fresh(b.max) || (base(b.max) == old(base(b.max)) && off(b.max) == old(off(b.max)) && cap(b.max) == old(cap(b.max)))
-//@   at stmt5: assert loD(b, 0) == old(loD(b, 0))
-//@   at stmt5: assert hiD(b, 0) == old(hiD(b, 0))
-//@   at stmt5: assert loD(b, 1) == old(loD(b, 1))
-//@   at stmt5: assert hiD(b, 1) == old(hiD(b, 1))
-//@   at stmt5: assert loD(b, 2) == old(loD(b, 2))
-//@   at stmt5: assert hiD(b, 2) == old(hiD(b, 2))
-//@   at stmt5: assert loD(b, 3) == old(loD(b, 3))
-//@   at stmt5: assert hiD(b, 3) == old(hiD(b, 3))
-//@   at stmt9: assert loD(b, 0) == old(loD(b, 0))
-//@   at stmt9: assert hiD(b, 0) == old(hiD(b, 0))
-//@   at stmt9: assert loD(b, 1) == old(loD(b, 1))
-//@   at stmt9: assert hiD(b, 1) == old(hiD(b, 1))
-//@   at stmt9: assert loD(b, 2) == old(loD(b, 2))
-//@   at stmt9: assert hiD(b, 2) == old(hiD(b, 2))
-//@   at stmt9: assert loD(b, 3) == old(loD(b, 3))
-//@   at stmt9: assert hiD(b, 3) == old(hiD(b, 3))
-//@   at stmt12: assert loD(b, 0) == old(loD(b, 0))
-//@   at stmt12: assert hiD(b, 0) == old(hiD(b, 0))
-//@   at stmt12: assert loD(b, 1) == old(loD(b, 1))
-//@   at stmt12: assert hiD(b, 1) == old(hiD(b, 1))
-//@   at stmt12: assert loD(b, 2) == old(loD(b, 2))
-//@   at stmt12: assert hiD(b, 2) == old(hiD(b, 2))
-//@   at stmt12: assert loD(b, 3) == old(loD(b, 3))
-//@   at stmt12: assert hiD(b, 3) == old(hiD(b, 3))
+//@   at stmt[b.layout = XYZM]: assert loD(b, 0) == old(loD(b, 0))
+//@   at stmt[b.layout = XYZM]: assert hiD(b, 0) == old(hiD(b, 0))
+//@   at stmt[b.layout = XYZM]: assert loD(b, 1) == old(loD(b, 1))
+//@   at stmt[b.layout = XYZM]: assert hiD(b, 1) == old(hiD(b, 1))
+//@   at stmt[b.layout = XYZM]: assert loD(b, 2) == old(loD(b, 2))
+//@   at stmt[b.layout = XYZM]: assert hiD(b, 2) == old(hiD(b, 2))
+//@   at stmt[b.layout = XYZM]: assert loD(b, 3) == old(loD(b, 3))
+//@   at stmt[b.layout = XYZM]: assert hiD(b, 3) == old(hiD(b, 3))
+//@   at stmt[b.layout = XYZM]#2: assert loD(b, 0) == old(loD(b, 0))
+//@   at stmt[b.layout = XYZM]#2: assert hiD(b, 0) == old(hiD(b, 0))
+//@   at stmt[b.layout = XYZM]#2: assert loD(b, 1) == old(loD(b, 1))
+//@   at stmt[b.layout = XYZM]#2: assert hiD(b, 1) == old(hiD(b, 1))
+//@   at stmt[b.layout = XYZM]#2: assert loD(b, 2) == old(loD(b, 2))
+//@   at stmt[b.layout = XYZM]#2: assert hiD(b, 2) == old(hiD(b, 2))
+//@   at stmt[b.layout = XYZM]#2: assert loD(b, 3) == old(loD(b, 3))
+//@   at stmt[b.layout = XYZM]#2: assert hiD(b, 3) == old(hiD(b, 3))
+//@   at stmt[b.layout = layout]: assert loD(b, 0) == old(loD(b, 0))
+//@   at stmt[b.layout = layout]: assert hiD(b, 0) == old(hiD(b, 0))
+//@   at stmt[b.layout = layout]: assert loD(b, 1) == old(loD(b, 1))
+//@   at stmt[b.layout = layout]: assert hiD(b, 1) == old(hiD(b, 1))
+//@   at stmt[b.layout = layout]: assert loD(b, 2) == old(loD(b, 2))
+//@   at stmt[b.layout = layout]: assert hiD(b, 2) == old(hiD(b, 2))
+//@   at stmt[b.layout = layout]: assert loD(b, 3) == old(loD(b, 3))
+//@   at stmt[b.layout = layout]: assert hiD(b, 3) == old(hiD(b, 3))
 //@   modifies *b, b.min[0:cap(b.min)], b.max[0:cap(b.max)]
 
 //@ func Bounds.extendXYZMFlatCoordsWithXYM
@@ -973,10 +973,10 @@ package geom
 //@   ensures res3 == nil ==> len(res2) == len(coords3) && endssOK(res2, len(res1), stride) && (fresh(res1) || res1 == nil) && (fresh(res2) || res2 == nil)
 //@   ensures res3 == nil ==> forall p int :: 0 <= p && p < len(coords3) ==> len(res2[p]) == len(coords3[p])
 //@   modifies nothing
-//@   at stmt4: assert err == nil ==> len(ends) == len(coords2) && (fresh(ends) || ends == nil) && gflat <= len(flatCoords) && (len(ends) == 0 ==> len(flatCoords) == gflat) && (len(ends) > 0 ==> ends[len(ends)-1] == len(flatCoords))
-//@   at stmt4: assert err == nil ==> forall r int :: 0 <= r && r < len(ends) ==> gflat <= ends[r] && ends[r] <= len(flatCoords) && (r > 0 ==> ends[r-1] <= ends[r] && whole(ends[r] - ends[r-1], stride)) && (r == 0 ==> whole(ends[0] - gflat, stride))
-//@   at stmt7: assert len(endss) == idx + 1 && len(endss[idx]) == len(ends) && forall r int :: 0 <= r && r < len(ends) ==> endss[idx][r] == ends[r]
-//@   at stmt7: assert forall q int :: 0 <= q && q < idx ==> endss[q] == gh[q]
+//@   at stmt[flatCoords, ends, err = deflate2(flatCoords, ends, coords2, stride)]: assert err == nil ==> len(ends) == len(coords2) && (fresh(ends) || ends == nil) && gflat <= len(flatCoords) && (len(ends) == 0 ==> len(flatCoords) == gflat) && (len(ends) > 0 ==> ends[len(ends)-1] == len(flatCoords))
+//@   at stmt[flatCoords, ends, err = deflate2(flatCoords, ends, coords2, stride)]: assert err == nil ==> forall r int :: 0 <= r && r < len(ends) ==> gflat <= ends[r] && ends[r] <= len(flatCoords) && (r > 0 ==> ends[r-1] <= ends[r] && whole(ends[r] - ends[r-1], stride)) && (r == 0 ==> whole(ends[0] - gflat, stride))
+//@   at stmt[endss = append(endss, ends)]: assert len(endss) == idx + 1 && len(endss[idx]) == len(ends) && forall r int :: 0 <= r && r < len(ends) ==> endss[idx][r] == ends[r]
+//@   at stmt[endss = append(endss, ends)]: assert forall q int :: 0 <= q && q < idx ==> endss[q] == gh[q]
 //@   loop 1:
 //@     ghost gh [][]int = endss step endss
 //@     ghost gflat int = len(flatCoords) step len(flatCoords)
@@ -1027,12 +1027,12 @@ package geom
 //@   ensures len(g.endss[i]) > 0 ==> len(res.flatCoords) == g.endss[i][len(g.endss[i])-1] - old(lastEnd3(heapfor("int"), cells(g.endss), off(g.endss), i))
 //@   ensures forall k int :: 0 <= k && k < len(res.flatCoords) ==> res.flatCoords[k] == g.flatCoords[old(lastEnd3(heapfor("int"), cells(g.endss), off(g.endss), i)) + k]
 //@   modifies nothing
-//@   at stmt8: assert offset == lastEnd3(heapfor("int"), cells(g.endss), off(g.endss), i)
-//@   at stmt5: assert offset == lastEnd3(heapfor("int"), cells(g.endss), off(g.endss), i) && 0 <= offset && offset <= g.endss[i][0]
-//@   at stmt8: assert whole(g.endss[i][0] - offset, g.stride) && offset <= g.endss[i][0]
-//@   at stmt5: assert whole(g.endss[i][0] - offset, g.stride)
+//@   at stmt[offset = ends[len(ends)-1]]: assert offset == lastEnd3(heapfor("int"), cells(g.endss), off(g.endss), i)
+//@   at stmt[for lastNonEmptyIdx >= 0]: assert offset == lastEnd3(heapfor("int"), cells(g.endss), off(g.endss), i) && 0 <= offset && offset <= g.endss[i][0]
+//@   at stmt[offset = ends[len(ends)-1]]: assert whole(g.endss[i][0] - offset, g.stride) && offset <= g.endss[i][0]
+//@   at stmt[for lastNonEmptyIdx >= 0]: assert whole(g.endss[i][0] - offset, g.stride)
 //@   at entry: assert forall j int :: 0 <= j && j < len(g.endss[i]) ==> g.endss[i][j] <= g.endss[i][len(g.endss[i])-1]
-//@   at stmt12: assert forall j int :: 0 <= j && j < len(g.endss[i]) ==> ends[j] == g.endss[i][j] - offset
+//@   at stmt[if offset == 0]: assert forall j int :: 0 <= j && j < len(g.endss[i]) ==> ends[j] == g.endss[i][j] - offset
 //@   loop 1:
 //@     invariant 0 - 1 <= lastNonEmptyIdx && lastNonEmptyIdx <= i - 1 && offset == 0 && emptyBetween(g.endss, lastNonEmptyIdx, i)
 //@     invariant lastEnd3(heapfor("int"), cells(g.endss), off(g.endss), i) == lastEnd3(heapfor("int"), cells(g.endss), off(g.endss), lastNonEmptyIdx + 1)
